@@ -1,14 +1,23 @@
 (* C12 — printed expressions parse back to the same expression.  Property theorems only. *)
 From Coq Require Import List Arith.
 Import ListNotations.
-From Exmex.Model Require Import Base EvalBinary Lexer Flat.
+From Exmex.Model Require Import Base EvalBinary Lexer Flat Deep Convert.
+From Exmex.Spec Require Import RefSem.
+From Exmex.Proofs Require Import DeepSem DeepSubs C11Main DeepParse C03Main Unparse UnparseParsed.
 Open Scope nat_scope.
 
 (* `_partial`: a flat expression obtained by parsing prints exactly the text it was parsed from (for every text,
    table, data type and literal matcher; with and without constant folding).
-   Missing: that the text printed by a deep (or deep-derived flat) expression parses back to the same variables
-   and values -- covered by the correspondence (print, parse again, compare against the reference interpreter);
-   the known finding F6 (variables that vanish from the printed text) is reported there. *)
+   Deep expressions, at the level of tokens (2-4 below): what a structurally well-formed deep expression prints is the
+   concatenation of the texts of a token list (numbers by their Debug text, variables in braces, operator names,
+   parentheses; unary operators as calls); parsing that token list gives an expression over the names that occur in it,
+   whose value at every assignment is the denotation of the printed expression under the same named values; when every
+   listed variable occurs in the text these are the same variables and the same value at every assignment.  A flat
+   expression derived from a deep one prints the text of the deep one (5).
+   Missing: that the tokenizer maps the printed TEXT back to these tokens (names and numbers do not run together, the
+   Debug text of a number is read back as that number) -- covered by the correspondence (print, parse again, compare
+   against the reference interpreter); the known finding F6 (variables that vanish from the printed text) is reported
+   there and is visible in 3 as the difference between the listed and the occurring names. *)
 Lemma compile_keeps_text {D} (C : carrier D) fb (fx fx' : flatex D) : compile C fb fx = Ok fx' -> ftext fx' = ftext fx.
 Proof.
   unfold compile. destruct (compile_loop C _ _ _ _ _ _ _) as [[nodes used]|e|s]; cbn [bind]; try discriminate.
@@ -30,4 +39,60 @@ Proof.
   rewrite (compile_keeps_text C fb f fx H). apply Hwo. reflexivity.
 Qed.
 
+(* 2. what a deep expression prints *)
+Theorem C12_deep_unparse_is_the_text_of_its_tokens :
+  forall (D : Type) (C : carrier D) (tb : optable) (okop : dbop -> Prop) (okvar : nat -> str -> Prop) (okvars : list str -> Prop) (e : deepex D),
+  dwf okop okvar okvars e -> unparse C tb e = Some (render C tb (utoks e)).
+Proof. exact @unparse_is_render. Qed.
+
+(* 3. parsing the printed tokens: an expression over the names that occur, with the value of the printed expression *)
+Theorem C12_printed_tokens_parse_back :
+  forall (D : Type) (C : carrier D) (tb : optable) (R : D -> D -> Prop),
+  (forall a, R a a) -> (forall a b, R a b -> R b a) -> (forall a b c, R a b -> R b c -> R a c) ->
+  (forall k a a' b b', R a a' -> R b b' -> R (binf C k a b) (binf C k a' b')) ->
+  (forall k a a', R a a' -> R (unf C k a) (unf C k a')) ->
+  (forall o, comm_of tb o = true -> forall a b c, R (binf C o (binf C o a b) c) (binf C o a (binf C o b c))) ->
+  forall (okvar : nat -> str -> Prop) (okvars : list str -> Prop) (e : deepex D),
+  dwf (flagged tb) okvar okvars e -> uok tb e ->
+  unparse C tb e = Some (render C tb (utoks e)) /\
+  forall vals, length vals = length (find_parsed_vars (utoks e)) ->
+  exists e' v, parse_deep_tokens C tb (utoks e) = Ok e' /\ dvars e' = find_parsed_vars (utoks e) /\
+               eval_deep C e' vals = Ok v /\ R v (dden C (look_name C (find_parsed_vars (utoks e)) vals) e).
+Proof. exact @print_parse_tokens. Qed.
+
+(* 4. the same variables and the same value everywhere, when every listed variable occurs in the printed text *)
+Theorem C12_printed_tokens_parse_back_to_the_same_expression :
+  forall (D : Type) (C : carrier D) (tb : optable) (R : D -> D -> Prop),
+  (forall a, R a a) -> (forall a b, R a b -> R b a) -> (forall a b c, R a b -> R b c -> R a c) ->
+  (forall k a a' b b', R a a' -> R b b' -> R (binf C k a b) (binf C k a' b')) ->
+  (forall k a a', R a a' -> R (unf C k a) (unf C k a')) ->
+  (forall o, comm_of tb o = true -> forall a b c, R (binf C o (binf C o a b) c) (binf C o a (binf C o b c))) ->
+  forall e : deepex D,
+  dindexed (flagged tb) (dvars e) e -> uok tb e -> dvars e = find_parsed_vars (utoks e) ->
+  exists e', parse_deep_tokens C tb (utoks e) = Ok e' /\ dvars e' = dvars e /\
+    forall vals, length vals = length (dvars e) ->
+    exists v v', eval_deep C e vals = Ok v /\ eval_deep C e' vals = Ok v' /\ R v' v.
+Proof. exact @print_parse_same. Qed.
+
+(* the premise on unary operators holds for everything the deep parser builds, from any token list *)
+Theorem C12_parsed_expressions_record_unary_operators :
+  forall (D : Type) (C : carrier D) (tb : optable) (ts : list (token D)) (e : deepex D) (rest : list (token D)) (fuel : nat),
+  dparse C tb fuel None ts (find_parsed_vars ts) [] [] [] = Ok (e, rest) -> uok tb e.
+Proof. intros D C tb ts e rest fuel H. exact (dparse_uok C tb fuel None ts _ [] [] [] e rest eq_refl (Forall_nil _) H). Qed.
+
+(* 5. a flat expression made from a deep one prints what the deep one prints *)
+Theorem C12_flat_from_deep_prints_the_deep_text :
+  forall (D : Type) (C : carrier D) (tb : optable) (fb : bool) (e : deepex D) (fx : flatex D),
+  from_deepex C tb fb e = Ok fx -> unparse C tb e = Some (ftext fx).
+Proof.
+  intros D C tb fb e fx H. unfold from_deepex in H.
+  destruct (flatten_vecs e 0) as [[ns os]| |]; cbn [bind] in H; try discriminate.
+  destruct (unparse C tb e) as [t|]; [|discriminate]. inversion H; subst. reflexivity.
+Qed.
+
 Print Assumptions C12_flat_unparse_is_source_text_partial.
+Print Assumptions C12_deep_unparse_is_the_text_of_its_tokens.
+Print Assumptions C12_printed_tokens_parse_back.
+Print Assumptions C12_printed_tokens_parse_back_to_the_same_expression.
+Print Assumptions C12_parsed_expressions_record_unary_operators.
+Print Assumptions C12_flat_from_deep_prints_the_deep_text.
